@@ -19,7 +19,7 @@ RULE = ("scenarios {same key x2, same key x3, different keys, two functions with
         "f->g against a direct call of g, batch against a single call, two overlapping batches, three threads with two "
         "calls each over three keys, the same call through modifier clones (ignore_result / partial / force_local), a caller "
         "whose one-element batch is computed by another thread (provenance records compared)} x store {cold, warm store + cold cache, warm "
-        "cache} x cache budget {4 KiB (evictions), 16 MiB}; yield points: every line of runner_local.py and "
+        "cache; cold in-heap storage backend} x cache budget {4 KiB (evictions), 16 MiB}; yield points: every line of runner_local.py, storage_memory.py and "
         "storage_base.py (thorough: also storage_filesystem.py), every function entry in the other memento modules; "
         "systematic driver: every schedule with one preemption (each yield point x each other thread, for each "
         "choice of the thread that starts), thorough adds sampled two-preemption schedules; random driver: uniform "
@@ -52,13 +52,15 @@ CHUNK = 300
 
 
 def configs():
-    return [(s, st, b) for s in SCENARIOS for st in STORES for b in BUDGETS]
+    # (the in-heap storage backend has no memory cache and no budget: one configuration per scenario)
+    return [(s, st, b) for s in SCENARIOS for st in STORES for b in BUDGETS] + [(s, "cold_mem", "16MiB") for s in SCENARIOS]
 
 
 def cases(tier, seed):
     cfgs = configs()
     quick_sys = {(s, st, "4KiB") for s in list(SCENARIOS)[:6] for st in ("cold", "warm_store")} | {
-        ("same_key", "warm_cache", "4KiB"), ("diff_keys", "cold", "16MiB"), ("batch", "warm_store", "16MiB")}
+        ("same_key", "warm_cache", "4KiB"), ("diff_keys", "cold", "16MiB"), ("batch", "warm_store", "16MiB"),
+        ("same_key", "cold_mem", "16MiB"), ("nested", "cold_mem", "16MiB"), ("batch", "cold_mem", "16MiB")}
     for ci, (s, st, b) in enumerate(cfgs):
         n = len(SCENARIOS[s])
         if tier == "thorough" or (s, st, b) in quick_sys:
@@ -83,7 +85,7 @@ def ensure_monitor(tier):
         import twosigma.memento as m
 
         d = os.path.dirname(m.__file__)
-        files = [os.path.join(d, "runner_local.py"), os.path.join(d, "storage_base.py")]
+        files = [os.path.join(d, "runner_local.py"), os.path.join(d, "storage_base.py"), os.path.join(d, "storage_memory.py")]
         if tier == "thorough":
             files.append(os.path.join(d, "storage_filesystem.py"))
         _MON.append(sched.Monitor(files, d))
@@ -142,10 +144,10 @@ def setup(root, scenario, store, budget):
     from vf import ffuncs
 
     ffuncs.TABLE.update(table())
-    st = env.fs_backend(os.path.join(root, "data"), cache_mb=BUDGETS[budget])
+    st = env.mem_backend() if store == "cold_mem" else env.fs_backend(os.path.join(root, "data"), cache_mb=BUDGETS[budget])
     env.set_env(os.path.join(root, "env"), default_storage=st)
     sched.reset_mutexes()
-    if store != "cold":
+    if store not in ("cold", "cold_mem"):
         for fn, k in sorted(entries_of(scenario)):
             getattr(ffuncs, fn)(k)
         if store == "warm_store":
@@ -154,7 +156,9 @@ def setup(root, scenario, store, budget):
 
 
 def cache_state(st):
-    c = st._memory_cache
+    c = getattr(st, "_memory_cache", None)
+    if c is None:
+        return [0, []]
     return [c.memory_usage, sorted((k.split("/")[0].split(":")[-1] + "/" + k[-6:], e.has_value) for k, e in c.cache.items())]
 
 
@@ -231,14 +235,14 @@ def controlled_run(root, scenario, store, budget, strategy):
     ran = collections.Counter((e[0], e[1][0]) for e in events)
     if not s.deadlock and not s.errors:
         for ent in entries_of(scenario):
-            want = 0 if store != "cold" else 1
+            want = 0 if store not in ("cold", "cold_mem") else 1
             if ran.get(ent, 0) != want:
                 bad.append(("the body of a distinct call ran %s" % ("although it was memoized" if want == 0 else
                                                                      ("more than once" if ran.get(ent, 0) > 1 else "not at all")),
                             "%s(%s) ran %d times, expected %d" % (ent[0], ent[1], ran.get(ent, 0), want)))
         if any(d != 0 for d in depths):
             bad.append(("a thread's call stack is not empty after its calls returned", str(depths)))
-    for sig, msg in cache_invariant(st._memory_cache):
+    for sig, msg in (cache_invariant(st._memory_cache) if getattr(st, "_memory_cache", None) is not None else []):
         bad.append(("memory cache accounting after the threads finished: " + sig, msg))
     state = cache_state(st)
     if not bad:
